@@ -817,9 +817,13 @@ class Geometry(SupportsCoords[float]):
 
     def split(self, splitter: "Geometry") -> Iterable["Geometry"]:
         """shapely.ops.split"""
+        # check CRSs when called, not when the result is first iterated
         if splitter.crs != self.crs:
             raise CRSMismatchError(self.crs, splitter.crs)
 
+        return self._split(splitter)
+
+    def _split(self, splitter: "Geometry") -> Iterator["Geometry"]:
         for g in ops.split(self.geom, splitter.geom).geoms:
             yield Geometry(g, self.crs)
 
